@@ -117,3 +117,67 @@ contract(f"{NO}::NICObservation._categorise_traffic", props=["C02"], types={"nic
          ensures=[("within_declared_band", "0 <= result and result <= 10"),
                   ("zero_iff_no_traffic", "(result == 0) == (traffic_value == 0)")],
          modifies=[])
+
+# ---- ground truth side: what describe_state writes for one component (the entries the observations read) -------------------------------
+SIM = "src/primaite/simulator"
+contract(f"{SIM}/core.py::SimComponent.describe_state", props=["C09"], ensures=[("fresh_dict", "fresh(result)"), ("uuid", "result['uuid'] == self.uuid")],
+         modifies=[], allocates=True)
+contract(f"{SIM}/system/software.py::Software.describe_state", props=["C09", "C02"],
+         ensures=[("fresh_dict", "fresh(result)"),
+                  ("true_and_visible_health", "'health_state_actual' in result and 'health_state_visible' in result"
+                                              " and result['health_state_actual'] == self.health_state_actual.value and result['health_state_visible'] == self.health_state_visible.value"),
+                  ("health_values_are_enum_values", "is_enum_value(result['health_state_actual'], SoftwareHealthState) and is_enum_value(result['health_state_visible'], SoftwareHealthState)")],
+         modifies=[], allocates=True)
+contract(f"{SIM}/system/software.py::IOSoftware.describe_state", props=["C09", "C02"],
+         ensures=[("fresh_dict", "fresh(result)"),
+                  ("true_and_visible_health", "'health_state_actual' in result and 'health_state_visible' in result"
+                                              " and result['health_state_actual'] == self.health_state_actual.value and result['health_state_visible'] == self.health_state_visible.value"),
+                  ("health_values_are_enum_values", "is_enum_value(result['health_state_actual'], SoftwareHealthState) and is_enum_value(result['health_state_visible'], SoftwareHealthState)")],
+         modifies=[], allocates=True)
+contract(f"{SIM}/system/services/service.py::Service.describe_state", props=["C09", "C02"],
+         ensures=[("what_the_observation_reads", "svc_state_wf(result)"),
+                  ("ground_truth", "result['operating_state'] == self.operating_state.value and result['health_state_actual'] == self.health_state_actual.value"
+                                   " and result['health_state_visible'] == self.health_state_visible.value")],
+         modifies=[], allocates=True)
+contract(f"{SIM}/system/applications/application.py::Application.describe_state", props=["C09", "C02"],
+         ensures=[("what_the_observation_reads", "app_state_wf(result)"),
+                  ("ground_truth", "result['operating_state'] == self.operating_state.value and result['health_state_actual'] == self.health_state_actual.value"
+                                   " and result['health_state_visible'] == self.health_state_visible.value and result['num_executions'] == self.num_executions")],
+         modifies=[], allocates=True)
+contract(f"{SIM}/file_system/file_system_item_abc.py::FileSystemItemABC.describe_state", props=["C09", "C02"],
+         ensures=[("fresh_dict", "fresh(result)"),
+                  ("ground_truth", "'health_status' in result and 'visible_status' in result"
+                                   " and result['health_status'] == self.health_status.value and result['visible_status'] == self.visible_health_status.value"),
+                  ("health_values_are_enum_values", "is_enum_value(result['health_status'], FileSystemItemHealthStatus) and is_enum_value(result['visible_status'], FileSystemItemHealthStatus)")],
+         modifies=[], allocates=True)
+contract(f"{SIM}/file_system/file.py::File.describe_state", props=["C09", "C02"],
+         ensures=[("what_the_observation_reads", "file_state_wf(result)"),
+                  ("ground_truth", "result['health_status'] == self.health_status.value and result['visible_status'] == self.visible_health_status.value"
+                                   " and result['num_access'] == self.num_access")],
+         modifies=[], allocates=True)
+
+# ---- folders: the health leaf (the FILES part is a composite of FileObservation leaves, see the bounded composites check) ---------------
+attr_types({"FolderObservation.where": "List[str]", "FolderObservation.default_observation": "Dict[str, Any]", "FolderObservation.cached_obs": "Dict[str, Any]",
+            "FolderObservation.files": "List[FileObservation]"})
+spec("folder_state_wf(d)", "'health_status' in d and is_enum_value(d['health_status'], FileSystemItemHealthStatus)"
+                           " and 'visible_status' in d and is_enum_value(d['visible_status'], FileSystemItemHealthStatus)"
+                           " and 'scanned_this_step' in d and isinstance(d['scanned_this_step'], bool)")
+dispatch_contract(f"{OBS}/observations.py::AbstractObservation.observe", ensures=[], modifies=["heap"], allocates=True)
+contract(f"{FSO}::FolderObservation.observe", props=["C09", "C02"],
+         requires=["'health_status' in self.default_observation and self.default_observation['health_status'] == 0",
+                   "'health_status' in self.cached_obs and is_enum_value(self.cached_obs['health_status'], FileSystemItemHealthStatus)",
+                   "implies(not absent(state, self.where), isinstance(leaf(state, self.where), dict)"
+                   " and folder_state_wf(cast(leaf(state, self.where), 'Dict[str, Any]')))",
+                   # history (ghost) precondition: between scans the observation remembers the last-scanned status. It is
+                   # established by `remembers_what_it_showed` below in the step a scan completes and kept by every other
+                   # step, because the folder's visible status changes only when a scan completes (C14, proved there)
+                   "implies(not absent(state, self.where) and self.file_system_requires_scan and not cast(leaf(state, self.where), 'Dict[str, Any]')['scanned_this_step'],"
+                   " self.cached_obs['health_status'] == cast(leaf(state, self.where), 'Dict[str, Any]')['visible_status'])"],
+         ensures=[("health_within_declared_range", "0 <= result['health_status'] and result['health_status'] < 6"),
+                  ("absent_reads_default", "implies(absent(state, self.where), result['health_status'] == 0)"),
+                  # C09: "the last-scanned ('visible') value exactly when the scenario says scanning is required and the true value otherwise"
+                  ("visible_health_iff_scan_required", "implies(not absent(state, self.where), result['health_status'] == (cast(leaf(state, self.where), 'Dict[str, Any]')['visible_status']"
+                                                       " if self.file_system_requires_scan else cast(leaf(state, self.where), 'Dict[str, Any]')['health_status']))"),
+                  ("remembers_what_it_showed", "implies(not absent(state, self.where) and self.file_system_requires_scan,"
+                                               " 'health_status' in self.cached_obs and self.cached_obs['health_status'] == result['health_status'])")],
+         modifies=["self.cached_obs"], allocates=True)
